@@ -237,7 +237,10 @@ def run(ctx):
                         raise RuntimeError("base failed %r\n%s" % (op, r.text()))
                 saved = L0.save()
                 if name == "scrub-bad-marked" and not any(i is not None and i[1] for i in L0.content().info):
-                    raise RuntimeError("scrub-bad-marked: the preparation left no bad mark")
+                    # the preparing scrub met an injected EIO and marked nothing: that IS the property failing (not a harness problem)
+                    ctx.violation("C08/read/preparing-scrub-left-no-bad-mark", "scrub with an injected read error marked no stripe bad (%s)" % label,
+                                  dict(scenario=name, cfg=cfg.describe(), ops=ops, cmd=cmd, cache=cache, faults=[], violation=dict(kind="no-bad-mark-after-eio")))
+                    continue
                 r = run_cmd(L0, cmd, cache, env={"VP_TRACE_READS": "1"})
                 if r.rc != 0 and not name.endswith("-fileerror"):
                     raise RuntimeError("reference run failed\n" + r.text())
@@ -310,6 +313,13 @@ def replay(r):
         for op in r["ops"]:
             X.apply_op(L0, tuple(op))
         saved = L0.save()
+    if r.get("violation", {}).get("kind") == "no-bad-mark-after-eio":
+        with labmod.Lab(cfg) as L0:
+            for op in r["ops"]:
+                X.apply_op(L0, tuple(op))
+            ok = any(i is not None and i[1] for i in L0.content().info)
+        print("   bad mark after the preparing scrub:", ok)
+        return ok
     faults = tuple(tuple(f) for f in r["faults"])
     out = fault_job((cfg, saved, tuple(r["cmd"]), r["cache"], faults, None, [], 0))
     for v in out["viols"]:
